@@ -66,6 +66,7 @@ type FuncSpec struct {
 	Pure      bool
 	Allocates bool
 	IsLemma   bool
+	External  bool
 	LemmaParams string
 }
 
@@ -99,7 +100,7 @@ type Contracts struct {
 var clauseKW = map[string]bool{"prop": true, "requires": true, "ensures": true, "assigns": true, "loop": true,
 	"decreases": true, "ghost": true, "ghost_final": true, "use": true, "reveal": true, "guarantee": true, "define": true, "panics_if": true, "trusted": true, "noinline": true, "pure": true, "allocates": true}
 
-var headRe = regexp.MustCompile(`^func\s*(\(\s*(\w+)\s+(\*?\w+)\s*\))?\s*([\w$.@]+)\s*\((.*?)\)\s*(\(.*\)|[\w.*\[\]]+)?\s*$`)
+var headRe = regexp.MustCompile(`^func\s*(\(\s*(\w+)\s+(\*?[\w.]+)\s*\))?\s*([\w$.@]+)\s*\((.*?)\)\s*(\(.*\)|[\w.*\[\]]+)?\s*$`)
 
 func parseNames(list string) []string {
 	// "i, n int, p []byte" -> [i n p]; "out Location" -> [out]
@@ -156,7 +157,11 @@ func loadContracts(files []string, pkgNames []string) (*Contracts, error) {
 			}
 			rest := strings.TrimSpace(body[len(word):])
 			switch {
-			case word == "func":
+			case word == "func" || word == "external":
+				external := word == "external"
+				if external {
+					body = strings.TrimSpace(strings.TrimPrefix(body, "external"))
+				}
 				m := headRe.FindStringSubmatch(body)
 				if m == nil {
 					return nil, fmt.Errorf("%s:%d: cannot parse contract header %q", file, ln+1, body)
@@ -172,7 +177,15 @@ func loadContracts(files []string, pkgNames []string) (*Contracts, error) {
 				if strings.HasPrefix(res, "(") {
 					cur.Results = parseNames(res[1 : len(res)-1])
 				}
-				cs.Funcs[pkg+"."+cur.Key] = cur
+				if external {
+					// contract of a function outside the repository: assumed, keyed by its own package
+					cur.Trusted = true
+					cur.External = true
+					cur.TrustWhy = "external function (standard library or dependency)"
+					cs.Funcs[cur.Key] = cur
+				} else {
+					cs.Funcs[pkg+"."+cur.Key] = cur
+				}
 				lastClause, lastSpec, lastAxiom = nil, nil, nil
 			case word == "lemma":
 				m := regexp.MustCompile(`^(\w+)\s*\((.*)\)\s*$`).FindStringSubmatch(rest)
